@@ -2,6 +2,7 @@ import Morlock.Driver.Score
 import Morlock.Driver.Chess
 import Morlock.Driver.Game
 import Morlock.Driver.Fen
+import Morlock.Driver.Search
 open Morlock.Driver in
 def dispatchPure (toks : List String) : String :=
   match toks with
@@ -25,6 +26,7 @@ def dispatch (st : DriverState) (line : String) : DriverState × String :=
     | some e => ({ st with ztables := e :: st.ztables }, "ok")
     | none => (st, "bad-ztable")
   | "game" :: args => (st, gameOp st args)
+  | "search" :: args => (st, searchOp st args)
   | other => (st, dispatchPure other)
 
 partial def loop (h : IO.FS.Stream) (out : IO.FS.Stream) (st : DriverState) : IO Unit := do
